@@ -35,6 +35,14 @@ class C11(Check):
 
     def generate(self, rng: random.Random, n: int, tier: str) -> List[dict]:
         out = []
+        if tier == "thorough":
+            # bounded-exhaustive: every list of one or two rows over (a, b) with coefficients and constants in {-1, 0, 1}: emptiness,
+            # and membership of every point of the grid {-1, 0, 1}^2 (on, inside and outside every boundary)
+            for l in G.grid_lists(G.grid_rows(), 2):
+                out.append({"kind": "is_empty", "terms": l, "tag": "grid"})
+                for x in (-1.0, 0.0, 1.0):
+                    for y in (-1.0, 0.0, 1.0):
+                        out.append({"kind": "contains", "terms": [dict(c=dict(t["c"]), k=t["k"]) for t in l], "beh": {"a": x, "b": y}, "tag": "grid"})
         for i in range(n):
             r = rng.random()
             vs = G.VARS[: rng.randint(1, 4)]
